@@ -18,6 +18,7 @@ RULE = ("Generated: three state types, n 1..3 (thorough ..4), parameters with sc
         "rotate-once form; NLL = -mean log Born probability in each row's own basis; every path returns a plain float. "
         "Non-trivial = non-real target and (complex/density) a basis containing Y, (density) target rank > 1.")
 RULE_EXT = ('Extended as built: deprecated aliases, repeatability and target-unchanged checks, sparse targets with exact zeros (TINY=1e-15 convention), bases given as ndarray, datasets of up to 700 rows, polarised states, an in-place parameter history A -> B -> A, ignored extra keyword arguments. Rounds 5-6: user-added / overridden unitaries (letters used in bases); conditioning-based exclusion of rotated probabilities that are tiny through cancellation (error bound on KL > 1e-10, counted); the dict of per-basis targets passed by the caller is unchanged and a second call gives the same value.')
+RULE_EXT += " Round 10 (after an exception / long time axis): after an aborted fit() (normalisation evaluated in its callbacks on the caller's space object): metrics evaluated, parameters changed, fidelity with the own state = 1 and NLL of basis state 0 = -log of its own probability; 36 parameter states on one object."
 RULE = RULE + " " + RULE_EXT
 ASSUMPTIONS = ["rotated Born probabilities that are tiny because their terms cancel (|sum|/sum|terms| small) are ill-conditioned in any float64 implementation: cases where the resulting error bound on KL exceeds 1e-10 (or a sampled row has |sum|/sum|terms| < 1e-6) are excluded and counted; KL against the model's own state is 0 to within 2e-8 (softplus threshold e^-20 per hidden unit)",
                "cases where a reference Born probability that is paired with positive target mass is < 1e-15 are excluded and counted "
